@@ -134,4 +134,482 @@ Section ProvC.
       intros [toks r] [Ht _]. apply RR_ok. exact Ht.
     Qed.
   End Descent.
+
+  (* ---- enums ---- *)
+  Lemma RT_variant_destruct_block s c : sview_ok s -> RT (variant_destruct_block s c).
+  Proof.
+    intros (Hf & Hg & _). unfold RT, variant_destruct_block. cbv zeta.
+    set (live := filter _ (sv_fields s)).
+    assert (Hlive : Forall fview_ok live). { subst live. rewrite Forall_forall in *. intros x Hx. apply filter_In in Hx. apply Hf, Hx. }
+    clearbody live.
+    apply (RR_bind (fun p : list tok * type_hint => TI (fst p))).
+    { destruct (_ || _ || _).
+      - apply (RR_bind (Forall TI)).
+        + apply RR_mapM. intros x Hx. rewrite Forall_forall in Hlive. specialize (Hlive x Hx). destruct Hlive as (Hm & _ & _ & _ & _ & Ha).
+          destruct (negb (is_from (c_kind c))); [apply RR_ok; ti|].
+          destruct (fv_attr x) as [a|]; cbn [opt_ok] in Ha; [|apply RR_ok; ti].
+          apply (RR_bind member_ok); [apply RM_get_field_name_or; assumption|]. intros n Hn. apply RR_ok. ti.
+        + intros ids Hids. apply RR_ok. cbn [fst]. apply TI_concat. exact Hids.
+      - destruct (_ && _); apply RR_ok; cbn [fst]; [apply TI_nil|]. apply TI_flat_map. intros x _. ti. }
+    intros [idents th] Hid. cbn [fst] in Hid.
+    apply (RR_bind (Forall TI)).
+    { destruct (is_from (c_kind c)); [|apply RR_ok; constructor].
+      destruct (sv_ghosts s) as [g|]; cbn [opt_ok] in Hg; [|apply RR_ok; constructor].
+      apply RR_mapM. intros x Hx. unfold ghosts_ok in Hg. rewrite Forall_forall in Hg. destruct (Hg x Hx) as (_ & Hi & _).
+      destruct (gd_ident x) as [[i|n]|ts]; try apply RR_panic; apply RR_ok; cbn [member_ok] in Hi; ti. }
+    intros gids Hg'. cbv zeta.
+    assert (Hall : TI (idents ++ List.concat gids)) by (apply TI_app; [exact Hid | apply TI_concat; exact Hg']).
+    destruct th; try apply RR_panic; apply RR_ok; first [apply TI_nil | apply TI_group; [exact Hall | apply TI_nil]].
+  Qed.
+
+  Lemma ictx_ok_variant c hint named :
+    ictx_ok c -> ictx_ok {| c_kind := c_kind c; c_fallible := c_fallible c; c_core := c_core c; c_hint := hint; c_impl_type := ITVariant;
+                            c_dst := c_dst c; c_src := c_src c; c_post_init := c_post_init c; c_named := named |}.
+  Proof. intro H. exact H. Qed.
+
+  Lemma RT_render_enum_line v c : vview_ok v -> ictx_ok c -> RT (render_enum_line v c).
+  Proof.
+    intros (Hid & Hs & Ha & Hl & Hp) Hc. unfold RT, render_enum_line. cbv zeta.
+    set (nc := {| c_kind := c_kind c; c_impl_type := ITVariant |}).
+    assert (Hnc : ictx_ok nc) by exact Hc.
+    assert (Hd : TI (c_dst c)) by apply Hc. assert (Hsr : TI (c_src c)) by apply Hc.
+    clearbody nc.
+    apply (RR_bind TI).
+    { repeat match goal with |- RR _ (if ?b then _ else _) => destruct b end; try (apply RR_ok; ti). apply RT_variant_destruct_block. exact Hs. }
+    intros destr Hdestr.
+    apply (RR_bind TI).
+    { destruct (_ || _); [apply RR_ok; apply TI_nil|]. apply RT_struct_init_block; assumption. }
+    intros init Hinit.
+    destruct (vv_attr v) as [a|], (vv_lit v) as [lit|], (vv_pat v) as [pat|]; cbn [opt_ok] in *; try apply RR_panic;
+      repeat match goal with
+             | |- RR _ (if ?b then _ else _) => destruct b
+             | |- RR _ (bind (get_field_name_or _ _) _) => apply (RR_bind member_ok); [apply RM_get_field_name_or; side | intros ? ?]
+             | |- RR _ (bind (get_action_or _ _ _ _) _) => apply (RR_bind TI); [apply RT_get_action_or; side | intros ? ?]
+             | |- RR _ (bind (get_stuff _ _ _ _ _) _) => apply (RR_bind TI); [apply RT_get_stuff; side | intros ? ?]
+             | |- RR _ (Panic _) => apply RR_panic
+             | |- RR _ (Ok _) => apply RR_ok; ti
+             end.
+  Qed.
+
+  Lemma RT_enum_init_block vs ghosts c : Forall vview_ok vs -> opt_ok ghosts_ok ghosts -> ictx_ok c -> RT (enum_init_block vs ghosts c).
+  Proof.
+    intros Hvs Hg Hc. unfold RT, enum_init_block. cbv zeta.
+    apply (RR_bind (Forall TI)).
+    { apply RR_mapM. intros v Hv. rewrite Forall_forall in Hvs. specialize (Hvs v Hv).
+      repeat match goal with |- RR _ (if ?b then _ else _) => destruct b end; try (apply RR_ok; apply TI_nil). apply RT_render_enum_line; assumption. }
+    intros vfr Hvfr.
+    apply (RR_bind (Forall TI)).
+    { destruct ghosts as [g|]; cbn [opt_ok] in Hg; [|apply RR_ok; constructor]. apply RR_mapM. intros x Hx. unfold ghosts_ok in Hg. rewrite Forall_forall in Hg.
+      apply RT_render_enum_ghost_line; [apply Hg, Hx | exact Hc]. }
+    intros gfr Hgfr. apply RR_ok. apply TI_group; [|apply TI_nil].
+    apply TI_app; [apply TI_concat; exact Hvfr|]. apply TI_app; [apply TI_concat; exact Hgfr|].
+    assert (Hcore : core_ok (c_core c)) by apply Hc.
+    destruct Hcore as (_ & _ & _ & _ & _ & Hdf & _).
+    destruct (tc_default (c_core c)) as [dc|]; cbn [oTI opt_ok] in Hdf; [|apply TI_nil].
+    destruct (_ || _); [|apply TI_nil]. apply TI_ident; [lit|]. apply TI_quote_action; [exact Hc | exact Hdf | exact Logic.I].
+  Qed.
+
+  (* ---- bodies ---- *)
+  Lemma RT_data_main_code_block d c : dview_ok d -> ictx_ok c -> RT (data_main_code_block d c).
+  Proof.
+    intros Hd Hc. assert (Hdst : TI (c_dst c)) by apply Hc.
+    unfold RT, data_main_code_block, struct_main_code_block, enum_main_code_block. destruct d as [s|vs g]; cbn [dview_ok] in Hd.
+    - apply (RR_bind TI); [apply RT_struct_init_block; assumption|]. intros init Hi.
+      repeat match goal with |- RR _ (if ?b then _ else _) => destruct b end; apply RR_ok; ti.
+    - destruct Hd as [Hvs Hg]. apply (RR_bind TI); [apply RT_enum_init_block; assumption|]. intros init Hi.
+      repeat match goal with |- RR _ (if ?b then _ else _) => destruct b end; apply RR_ok; ti.
+  Qed.
+
+  Lemma TI_quick_return_block qr c : ictx_ok c -> TI qr -> TI (quick_return_block qr c).
+  Proof.
+    intros Hc Hq. unfold quick_return_block.
+    assert (H : TI (quote_action qr None c)) by (apply TI_quote_action; [exact Hc | exact Hq | exact Logic.I]).
+    destruct (is_into_existing (c_kind c)); ti.
+  Qed.
+
+  Lemma RT_main_code_block d c : dview_ok d -> ictx_ok c -> RT (main_code_block d c).
+  Proof.
+    intros Hd Hc. unfold RT, main_code_block. assert (Hq : oTI (tc_qret (c_core c))) by apply Hc.
+    destruct (tc_qret (c_core c)) as [qr|]; cbn [oTI opt_ok] in Hq; [apply RR_ok; apply TI_quick_return_block; assumption | apply RT_data_main_code_block; assumption].
+  Qed.
+
+  Lemma RT_main_code_block_ok d c : dview_ok d -> ictx_ok c -> RT (main_code_block_ok d c).
+  Proof.
+    intros Hd Hc. unfold RT, main_code_block_ok. assert (Hq : oTI (tc_qret (c_core c))) by apply Hc.
+    destruct (tc_qret (c_core c)) as [qr|]; cbn [oTI opt_ok] in Hq; [apply RR_ok; apply TI_quick_return_block; assumption|].
+    apply (RR_bind TI); [apply RT_data_main_code_block; assumption|]. intros inner Hi. destruct (c_post_init c); apply RR_ok; ti.
+  Qed.
+
+  Lemma TI_struct_pre_init c : ictx_ok c -> oTI (struct_pre_init c).
+  Proof.
+    intro Hc. unfold struct_pre_init. assert (Hi : opt_ok (Forall (fun x => P (id_ident x) /\ TI (id_action x))) (tc_init (c_core c))) by apply Hc.
+    destruct (tc_init (c_core c)) as [l|]; cbn [oTI opt_ok] in *; [|exact Logic.I].
+    apply TI_flat_map. intros x Hx. rewrite Forall_forall in Hi. destruct (Hi x Hx) as [Hn Ha].
+    assert (H : TI (quote_action (id_action x) None c)) by (apply TI_quote_action; [exact Hc | exact Ha | exact Logic.I]). ti.
+  Qed.
+
+  (* ---- skeleton instantiation ---- *)
+  Definition env_ok (e : env) : Prop := Forall (fun kv => TI (snd kv)) e.
+  Definition sk_ok (l : list stok) : Prop := forall i, In i (stoks_idents l) -> P i.
+
+  Lemma nested_sidents l : (fix go (l : list stok) : list string := match l with [] => [] | x :: r => stok_idents x ++ go r end) l = stoks_idents l.
+  Proof. induction l as [|x r IH]; [reflexivity|]. cbn [stoks_idents flat_map]. rewrite IH. reflexivity. Qed.
+
+  Lemma assoc_env_ok e h ts : env_ok e -> assoc_str h e = Some ts -> TI ts.
+  Proof.
+    induction 1 as [|[k v] e Hv _ IH]; cbn [assoc_str]; [discriminate|]. destruct (String.eqb h k); [intro E; injection E as <-; exact Hv | exact IH].
+  Qed.
+
+  Lemma TI_inst e : env_ok e -> forall l, sk_ok l -> TI (inst e l).
+  Proof.
+    intro He.
+    assert (Hall : forall t, sk_ok [t] -> TI (inst_stok e t)).
+    { fix IH 1. intros t Ht. destruct t as [s|ch j|s|d l|h]; cbn [inst_stok].
+      - apply TI_ident; [apply Ht; left; reflexivity | apply TI_nil].
+      - apply TI_punct, TI_nil.
+      - apply TI_lit, TI_nil.
+      - apply TI_group; [|apply TI_nil].
+        assert (Hl : sk_ok l). { intros i Hi. apply Ht. cbn [stoks_idents flat_map stok_idents]. rewrite nested_sidents, app_nil_r. exact Hi. }
+        clear Ht. induction l as [|x r IHr]; [apply TI_nil|]. apply TI_app.
+        + apply IH. intros i Hi. apply Hl. cbn [stoks_idents flat_map]. apply in_or_app. left. cbn [stoks_idents flat_map] in Hi. rewrite app_nil_r in Hi. exact Hi.
+        + apply IHr. intros i Hi. apply Hl. cbn [stoks_idents flat_map]. apply in_or_app. right. exact Hi.
+      - destruct (assoc_str h e) as [ts|] eqn:E; [exact (assoc_env_ok e h ts He E) | apply TI_nil]. }
+    intros l Hl. unfold inst. apply TI_flat_map. intros x Hx. apply Hall. intros i Hi. apply Hl. unfold stoks_idents. apply in_flat_map. exists x. split; [exact Hx|].
+    cbn [stoks_idents flat_map] in Hi. rewrite app_nil_r in Hi. exact Hi.
+  Qed.
+
+  (* every regenerated template writes allow-listed identifiers only (re-proved against the templates of the current source) *)
+  Lemma template_ok sk : In sk all_templates -> sk_ok sk.
+  Proof.
+    intros Hin i Hi. apply P_lit. unfold expand_literals. apply in_or_app. left.
+    assert (H := templates_ok). unfold templates_no_std in H. do 3 (apply andb_prop in H; destruct H as [H ?]).
+    rewrite forallb_forall in H. specialize (H sk Hin). rewrite forallb_forall in H. specialize (H i Hi).
+    unfold str_in in H. apply existsb_exists in H. destruct H as (x & Hx & E). apply String.eqb_eq in E. subst x. exact Hx.
+  Qed.
+
+  Ltac in_templates := unfold all_templates, all_skeletons; cbn [map app snd In]; repeat (first [left; reflexivity | right]).
+  Lemma sk_ok_from : sk_ok sk_from. Proof. apply template_ok. in_templates. Qed.
+  Lemma sk_ok_try_from : sk_ok sk_try_from. Proof. apply template_ok. in_templates. Qed.
+  Lemma sk_ok_into : sk_ok sk_into. Proof. apply template_ok. in_templates. Qed.
+  Lemma sk_ok_try_into : sk_ok sk_try_into. Proof. apply template_ok. in_templates. Qed.
+  Lemma sk_ok_into_body_post : sk_ok sk_into_body_post. Proof. apply template_ok. in_templates. Qed.
+  Lemma sk_ok_into_body_plain : sk_ok sk_into_body_plain. Proof. apply template_ok. in_templates. Qed.
+  Lemma sk_ok_try_into_body_post : sk_ok sk_try_into_body_post. Proof. apply template_ok. in_templates. Qed.
+  Lemma sk_ok_try_into_body_plain : sk_ok sk_try_into_body_plain. Proof. apply template_ok. in_templates. Qed.
+  Lemma sk_ok_into_existing : sk_ok sk_into_existing. Proof. apply template_ok. in_templates. Qed.
+  Lemma sk_ok_try_into_existing : sk_ok sk_try_into_existing. Proof. apply template_ok. in_templates. Qed.
+
+  Lemma RT_render_parent f c : fview_ok f -> RT (render_parent f c).
+  Proof.
+    intros Hf. unfold RT, render_parent.
+    destruct (find _ sk_render_parent) as [e|] eqn:E; [|apply RR_panic]. apply RR_ok. apply TI_inst.
+    - constructor; [|constructor]. cbn [snd]. apply TI_member; [apply Hf | apply TI_nil].
+    - apply template_ok. apply find_some in E. destruct E as [Hin _]. unfold all_templates. apply in_or_app. right. apply in_map. exact Hin.
+  Qed.
+
+  Lemma R_struct_post_init d c : dview_ok d -> RR oTI (struct_post_init d c).
+  Proof.
+    intros Hd. unfold struct_post_init. destruct (is_from (c_kind c)); [apply RR_ok; exact Logic.I|].
+    apply (RR_bind (Forall TI)).
+    - destruct d as [s|vs g]; cbn [dview_ok] in Hd.
+      + apply RR_mapM. intros f Hf. destruct Hd as (Hfs & _). rewrite Forall_forall in Hfs. destruct (fv_has_pl_parent f); [apply RT_render_parent; apply Hfs, Hf | apply RR_ok; apply TI_nil].
+      + apply RR_mapM. intros v _. destruct (vv_has_pl_parent v); [apply RR_panic | apply RR_ok; apply TI_nil].
+    - intros frags Hfr. destruct (forallb is_empty_list frags); apply RR_ok; [exact Logic.I | cbn [oTI opt_ok]; apply TI_concat; exact Hfr].
+  Qed.
+
+  (* ---- generics ---- *)
+  Lemma TI_lifetime n : P n -> TI (lifetime n).
+  Proof. intro H. ti. Qed.
+
+  Lemma TI_print_impl_lts l : Forall gparam_ok l -> forall tr, TI (fst (print_impl_lts l tr)).
+  Proof.
+    induction 1 as [|g l [Hn Hd] _ IH]; intro tr; cbn [print_impl_lts]; [apply TI_nil|].
+    destruct (gp_is_lt g); [|apply IH]. specialize (IH (gp_punct g)). destruct (print_impl_lts l (gp_punct g)) as [ts tr']. cbn [fst] in *.
+    apply TI_app; [exact Hd|]. apply TI_app; [destruct (gp_punct g); ti | exact IH].
+  Qed.
+  Lemma TI_print_impl_others l : Forall gparam_ok l -> forall tr, TI (print_impl_others l tr).
+  Proof.
+    induction 1 as [|g l [Hn Hd] _ IH]; intro tr; cbn [print_impl_others]; [apply TI_nil|].
+    destruct (gp_is_lt g); [apply IH|]. apply TI_app; [destruct tr; ti|]. apply TI_app; [exact Hd|]. apply TI_app; [destruct (gp_punct g); ti | apply IH].
+  Qed.
+  Lemma TI_print_impl_generics l : Forall gparam_ok l -> TI (print_impl_generics l).
+  Proof.
+    intro H. unfold print_impl_generics. destruct l as [|g l]; [apply TI_nil|].
+    assert (H1 := TI_print_impl_lts _ H true). destruct (print_impl_lts (g :: l) true) as [lts tr]. cbn [fst] in H1.
+    apply TI_app; [ti|]. apply TI_app; [exact H1|]. apply TI_app; [apply TI_print_impl_others; exact H | ti].
+  Qed.
+
+  Lemma TI_gp_name_toks g : gparam_ok g -> TI (gp_name_toks g).
+  Proof. intros [Hn _]. unfold gp_name_toks. destruct (gp_k g); ti. Qed.
+  Lemma TI_print_ty_lts l : Forall gparam_ok l -> forall tr, TI (fst (print_ty_lts l tr)).
+  Proof.
+    induction 1 as [|g l Hg _ IH]; intro tr; cbn [print_ty_lts]; [apply TI_nil|].
+    destruct (gp_is_lt g); [|apply IH]. specialize (IH (gp_punct g)). destruct (print_ty_lts l (gp_punct g)) as [ts tr']. cbn [fst] in *.
+    apply TI_app; [apply TI_gp_name_toks; exact Hg|]. apply TI_app; [destruct (gp_punct g); ti | exact IH].
+  Qed.
+  Lemma TI_print_ty_others l : Forall gparam_ok l -> forall tr, TI (print_ty_others l tr).
+  Proof.
+    induction 1 as [|g l Hg _ IH]; intro tr; cbn [print_ty_others]; [apply TI_nil|].
+    destruct (gp_is_lt g); [apply IH|]. apply TI_app; [destruct tr; ti|]. apply TI_app; [apply TI_gp_name_toks; exact Hg|]. apply TI_app; [destruct (gp_punct g); ti | apply IH].
+  Qed.
+  Lemma TI_print_type_generics l : Forall gparam_ok l -> TI (print_type_generics l).
+  Proof.
+    intro H. unfold print_type_generics. destruct l as [|g l]; [apply TI_nil|].
+    assert (H1 := TI_print_ty_lts _ H true). destruct (print_ty_lts (g :: l) true) as [lts tr]. cbn [fst] in H1.
+    apply TI_app; [ti|]. apply TI_app; [exact H1|]. apply TI_app; [apply TI_print_ty_others; exact H | ti].
+  Qed.
+
+  Lemma push_param_ok l g : Forall gparam_ok l -> gparam_ok g -> Forall gparam_ok (push_param l g).
+  Proof.
+    intros Hl Hg. unfold push_param. apply Forall_app. split; [|constructor; [exact Hg | constructor]].
+    rewrite Forall_forall in *. intros x Hx. apply in_map_iff in Hx. destruct Hx as (y & <- & Hy). exact (Hl y Hy).
+  Qed.
+  Lemma add_missing_lts_ok lts : Forall (fun n => P n) lts -> forall gens, Forall gparam_ok gens -> Forall gparam_ok (add_missing_lts gens lts).
+  Proof.
+    induction 1 as [|lt r Hlt _ IH]; intros gens Hg; cbn [add_missing_lts]; [exact Hg|]. apply IH.
+    destruct (forallb _ gens); [|exact Hg]. apply push_param_ok; [exact Hg|]. split; cbn [gp_name gp_decl]; [exact Hlt | apply TI_lifetime; exact Hlt].
+  Qed.
+  Lemma TI_join_plus l : Forall (fun n => P n) l -> TI (join_plus l).
+  Proof.
+    induction 1 as [|x l Hx Hl IH]; [apply TI_nil|]. cbn [join_plus]. destruct l as [|y l']; [apply TI_lifetime; exact Hx|].
+    apply TI_app; [apply TI_lifetime; exact Hx|]. apply TI_app; [ti | exact IH].
+  Qed.
+
+  Definition garg_ok (x : garg * bool) : Prop := match fst x with GLt n => P n | GOther ts => TI ts end.
+  Lemma TI_print_garg g p : garg_ok (g, p) -> TI (print_garg g).
+  Proof. unfold garg_ok. cbn [fst]. destruct g; cbn [print_garg]; intro H; [apply TI_lifetime; exact H | exact H]. Qed.
+  Lemma TI_print_args_lts l : Forall garg_ok l -> forall tr, TI (fst (print_args_lts l tr)).
+  Proof.
+    induction 1 as [|[g p] l Hg _ IH]; intro tr; cbn [print_args_lts]; [apply TI_nil|].
+    destruct (is_lt g); [|apply IH]. specialize (IH p). destruct (print_args_lts l p) as [ts tr']. cbn [fst] in *.
+    apply TI_app; [exact (TI_print_garg g p Hg)|]. apply TI_app; [destruct p; ti | exact IH].
+  Qed.
+  Lemma TI_print_args_others l : Forall garg_ok l -> forall tr, TI (print_args_others l tr).
+  Proof.
+    induction 1 as [|[g p] l Hg _ IH]; intro tr; cbn [print_args_others]; [apply TI_nil|].
+    destruct (is_lt g); [apply IH|]. apply TI_app; [destruct tr; ti|]. apply TI_app; [exact (TI_print_garg g p Hg)|]. apply TI_app; [destruct p; ti | apply IH].
+  Qed.
+  Lemma TI_print_angle a : angle_ok a -> TI (print_angle a).
+  Proof.
+    intro H. unfold print_angle. assert (H1 := TI_print_args_lts _ H true). destruct (print_args_lts (a_args a) true) as [lts tr]. cbn [fst] in H1.
+    apply TI_app; [destruct (a_colon2 a); ti|]. apply TI_app; [ti|]. apply TI_app; [exact H1|]. apply TI_app; [apply TI_print_args_others; exact H | ti].
+  Qed.
+
+  Lemma angle_lts_ok a : opt_ok angle_ok a -> Forall (fun n => P n) (angle_lts a).
+  Proof.
+    intro H. unfold angle_lts. destruct a as [g|]; cbn [opt_ok] in H; [|constructor]. unfold angle_ok in H.
+    induction H as [|[x b] l Hx _ IH]; cbn [flat_map]; [constructor|]. cbn [fst] in *. destruct x; cbn [app]; [constructor; [exact Hx | exact IH] | exact IH].
+  Qed.
+
+  Lemma TI_print_where w : opt_ok (fun w => Forall TI (wa_preds w)) w -> TI (print_where w).
+  Proof.
+    intro H. unfold print_where. destruct w as [a|]; cbn [opt_ok] in H; [|apply TI_nil]. apply TI_ident; [lit|].
+    induction H as [|p l Hp Hl IH]; [apply TI_nil|]. destruct l as [|q l']; [exact Hp|]. apply TI_app; [exact Hp|]. apply TI_app; [ti | exact IH].
+  Qed.
+
+  Lemma these_lts_ok gens : Forall gparam_ok gens -> Forall (fun n => P n) (flat_map (fun g => if gp_is_lt g then [gp_name g] else []) gens).
+  Proof. induction 1 as [|g l [Hn _] _ IH]; cbn [flat_map]; [constructor|]. destruct (gp_is_lt g); cbn [app]; [constructor; assumption | exact IH]. Qed.
+
+  Lemma trait_env_ok t c : tview_ok t -> ictx_ok c -> env_ok (trait_env t c).
+  Proof.
+    intros (Hg & Hd & Hw) Hc. assert (Hcore : core_ok (c_core c)) by apply Hc. destruct Hcore as ((Htp & Hta) & _ & _ & _ & _ & _ & Hat & Hia & Hin).
+    assert (Hdst : TI (c_dst c)) by apply Hc. assert (Hsrc : TI (c_src c)) by apply Hc.
+    unfold trait_env. cbv zeta.
+    set (these_lts := flat_map _ (tv_generics t)). set (those_lts := angle_lts (tp_generics (c_ty c))).
+    assert (H1 : Forall (fun n => P n) these_lts) by (apply these_lts_ok; exact Hg).
+    assert (H2 : Forall (fun n => P n) those_lts) by (apply angle_lts_ok; exact Hta).
+    set (ref_lts := if is_ref (c_kind c) then _ else []).
+    assert (H3 : Forall (fun n => P n) ref_lts). { subst ref_lts. destruct (is_ref (c_kind c)); [destruct (is_from (c_kind c)); assumption | constructor]. }
+    clearbody these_lts those_lts ref_lts.
+    assert (Hg1 : Forall gparam_ok (add_missing_lts (tv_generics t) those_lts)) by (apply add_missing_lts_ok; assumption).
+    repeat (constructor; cbn [snd]).
+    - destruct (tc_attr (c_core c)); [exact Hat | apply TI_nil].
+    - destruct (tc_impl_attr (c_core c)); [exact Hia | apply TI_nil].
+    - destruct (tc_inner_attr (c_core c)); [exact Hin | apply TI_nil].
+    - exact Hdst.
+    - exact Hsrc.
+    - apply TI_print_type_generics. exact Hg.
+    - unfold c_ty. destruct (tp_generics (tc_ty (c_core c))) as [a|]; cbn [opt_ok] in Hta; [apply TI_print_angle; exact Hta | apply TI_nil].
+    - apply TI_print_impl_generics. destruct ref_lts as [|x r]; [exact Hg1|]. apply push_param_ok; [exact Hg1|].
+      split; cbn [gp_name gp_decl]; [lit|]. apply TI_app; [apply TI_lifetime; lit|]. apply TI_app; [ti | apply TI_join_plus; exact H3].
+    - apply TI_print_where. exact Hw.
+    - destruct (is_ref (c_kind c)); [|apply TI_nil]. destruct ref_lts; [ti|]. apply TI_punct. apply TI_lifetime. lit.
+  Qed.
+
+  Lemma R_err_env c : ictx_ok c -> RR env_ok (err_env c).
+  Proof.
+    intro Hc. assert (Hcore : core_ok (c_core c)) by apply Hc. destruct Hcore as (_ & He & _). unfold err_env.
+    destruct (tc_err (c_core c)) as [e|]; cbn [opt_ok] in He; [|apply RR_panic]. destruct He as [Hp Ha]. apply RR_ok.
+    constructor; [exact Hp|]. constructor; [|constructor]. cbn [snd]. destruct (tp_generics e) as [a|]; cbn [opt_ok] in Ha; [apply TI_print_angle; exact Ha | apply TI_nil].
+  Qed.
+
+  Lemma TI_opt_toks o : oTI o -> TI (opt_toks o).
+  Proof. destruct o; cbn [oTI opt_ok opt_toks]; [auto | intros _; apply TI_nil]. Qed.
+
+  (* ---- quote_trait: every identifier of a generated item ---- *)
+  Theorem RT_quote_trait t c0 : tview_ok t -> ictx_ok c0 -> RT (quote_trait t c0).
+  Proof.
+    intros Ht Hc0. unfold RT, quote_trait. cbv zeta.
+    assert (Hpre : TI (opt_toks (struct_pre_init c0))) by (apply TI_opt_toks, TI_struct_pre_init; exact Hc0).
+    assert (Hd : dview_ok (tv_data t)) by apply Ht.
+    apply (RR_bind oTI); [apply R_struct_post_init; exact Hd|]. intros post Hpost.
+    set (c := {| c_kind := c_kind c0; c_post_init := is_some post |}).
+    assert (Hc : ictx_ok c) by exact Hc0.
+    assert (Hbase : env_ok (trait_env t c)) by (apply trait_env_ok; assumption).
+    assert (Hpo : TI (opt_toks post)) by (apply TI_opt_toks; exact Hpost).
+    assert (Hk : c_kind c = c_kind c0) by reflexivity. assert (Hf : c_fallible c = c_fallible c0) by reflexivity.
+    clearbody c. rewrite Hk, Hf. clear Hk Hf.
+    assert (env_cons : forall k v e, TI v -> env_ok e -> env_ok ((k, v) :: e)) by (intros; constructor; assumption).
+    assert (env_app : forall e1 e2, env_ok e1 -> env_ok e2 -> env_ok (e1 ++ e2)) by (intros; apply Forall_app; split; assumption).
+    destruct (is_from (c_kind c0)); [|destruct (is_intoish (c_kind c0))]; destruct (c_fallible c0).
+    - apply (RR_bind TI); [apply RT_main_code_block_ok; assumption|]. intros init Hi.
+      apply (RR_bind env_ok); [apply R_err_env; exact Hc|]. intros ee Hee. apply RR_ok. apply TI_inst; [|apply sk_ok_try_from]. auto.
+    - apply (RR_bind TI); [apply RT_main_code_block; assumption|]. intros init Hi. apply RR_ok. apply TI_inst; [|apply sk_ok_from]. auto.
+    - apply (RR_bind TI); [apply RT_main_code_block_ok; assumption|]. intros init Hi.
+      apply (RR_bind env_ok); [apply R_err_env; exact Hc|]. intros ee Hee. cbv zeta. apply RR_ok.
+      assert (He1 : env_ok (("pre_init", opt_toks (struct_pre_init c0)) :: ("init", init) :: ("post_init", opt_toks post) :: ee ++ trait_env t c)) by auto.
+      apply TI_inst; [|apply sk_ok_try_into]. apply env_cons; [|exact He1].
+      destruct post; apply TI_inst; try exact He1; [apply sk_ok_try_into_body_post | apply sk_ok_try_into_body_plain].
+    - apply (RR_bind TI); [apply RT_main_code_block; assumption|]. intros init Hi. cbv zeta. apply RR_ok.
+      assert (He1 : env_ok (("pre_init", opt_toks (struct_pre_init c0)) :: ("init", init) :: ("post_init", opt_toks post) :: trait_env t c)) by auto.
+      apply TI_inst; [|apply sk_ok_into]. apply env_cons; [|exact He1].
+      destruct post; apply TI_inst; try exact He1; [apply sk_ok_into_body_post | apply sk_ok_into_body_plain].
+    - apply (RR_bind TI); [apply RT_main_code_block; assumption|]. intros init Hi.
+      apply (RR_bind env_ok); [apply R_err_env; exact Hc|]. intros ee Hee. apply RR_ok. apply TI_inst; [|apply sk_ok_try_into_existing]. auto 10.
+    - apply (RR_bind TI); [apply RT_main_code_block; assumption|]. intros init Hi. apply RR_ok. apply TI_inst; [|apply sk_ok_into_existing]. auto 10.
+  Qed.
+
+  (* ---- from the parsed data type to the views ---- *)
+  Definition member_attrs_ok (m : member_attrs) : Prop :=
+    Forall (fun a => omember_ok (mc_member (ma_core a)) /\ oTI (mc_action (ma_core a))) (m_attrs m) /\
+    Forall (fun a => Forall member_ok (ch_path a)) (m_child m) /\
+    Forall (fun a => opt_ok (Forall pcf_ok) (pa_children a)) (m_parent m) /\
+    Forall (fun a => oTI (fg_action (gh_core a))) (m_ghost m) /\
+    Forall (fun a => ghosts_ok (ga_core a)) (m_ghosts m) /\
+    Forall (fun a => TI (lp_toks a)) (m_lit m) /\ Forall (fun a => TI (lp_toks a)) (m_pat m).
+  Definition field_ok (f : field) : Prop := member_attrs_ok (f_attrs f) /\ member_ok (f_member f) /\ oTI (f_ty f).
+  Definition variant_ok (v : variant) : Prop := member_attrs_ok (v_attrs v) /\ P (v_ident v) /\ Forall field_ok (v_fields v).
+  Definition dt_attrs_ok (d : dt_attrs) : Prop :=
+    Forall (fun a => core_ok (ta_core a)) (d_attrs d) /\ Forall (fun a => ghosts_ok (ga_core a)) (d_ghosts d) /\
+    Forall (fun w => Forall TI (wa_preds w)) (d_where d) /\ Forall child_parents_ok (d_child_parents d).
+  Definition data_ok (d : data_type) : Prop :=
+    P (dt_ident d) /\ Forall gparam_ok (dt_generics d) /\ dt_attrs_ok (dt_get_attrs d) /\
+    match d with DStruct s => Forall field_ok (s_fields s) | DEnum e => Forall variant_ok (e_variants e) end.
+
+  Lemma find_for_ok {A} (Q : A -> Prop) ty_of ok (l : list A) ty x : Forall Q l -> find_for ty_of ok l ty = Some x -> Q x.
+  Proof.
+    intros H E. unfold find_for in E. destruct (find _ l) as [y|] eqn:E1; [injection E as <-; exact (find_ok Q _ l y H E1)|]. exact (find_ok Q _ l x H E).
+  Qed.
+
+  Lemma opt_find_for_ok {A} (Q : A -> Prop) ty_of ok (l : list A) ty : Forall Q l -> opt_ok Q (find_for ty_of ok l ty).
+  Proof. intro H. destruct (find_for ty_of ok l ty) as [x|] eqn:E; cbn [opt_ok]; [exact (find_for_ok Q _ _ l ty x H E) | exact Logic.I]. Qed.
+
+  Lemma opt_map_ok {A B} (Q : B -> Prop) (f : A -> B) o : opt_ok (fun a => Q (f a)) o -> opt_ok Q (option_map f o).
+  Proof. destruct o; cbn; auto. Qed.
+
+  Lemma or_else_ok {A} (Q : A -> Prop) a b : opt_ok Q a -> opt_ok Q b -> opt_ok Q (or_else a b).
+  Proof. destruct a; cbn; auto. Qed.
+
+  Lemma field_attr_core_ok m k f ty : member_attrs_ok m -> opt_ok (fun mc => omember_ok (mc_member mc) /\ oTI (mc_action mc)) (field_attr_core m k f ty).
+  Proof. intros (H & _). unfold field_attr_core, field_attr. apply opt_map_ok. apply opt_find_for_ok. exact H. Qed.
+
+  Lemma applicable_attr_ok m k f ty : member_attrs_ok m -> opt_ok applicable_ok (applicable_attr m k f ty).
+  Proof.
+    intro Hm. unfold applicable_attr.
+    assert (Hg : opt_ok (fun g => oTI (fg_action g)) (m_ghost_for m ty k)).
+    { unfold m_ghost_for. apply opt_map_ok. apply opt_find_for_ok. apply Hm. }
+    destruct (m_ghost_for m ty k) as [g|]; cbn [opt_ok] in *; [exact Hg|].
+    apply (opt_map_ok applicable_ok AField). cbn [applicable_ok]. unfold field_chain.
+    repeat (apply or_else_ok; [try (destruct (_ : bool); [|exact Logic.I]); apply field_attr_core_ok; exact Hm|]).
+    destruct (_ : bool); [apply field_attr_core_ok; exact Hm | exact Logic.I].
+  Qed.
+
+  Lemma view_field_ok k fl ty f : field_ok f -> fview_ok (view_field k fl ty f).
+  Proof.
+    intros (Hm & Hmem & Hty). unfold fview_ok, view_field. cbn [fv_member fv_ty fv_child fv_ghost fv_pparent fv_attr].
+    split; [exact Hmem|]. split; [exact Hty|]. split.
+    { unfold m_child_for. apply opt_map_ok. apply opt_find_for_ok. apply Hm. }
+    split. { unfold m_ghost_for. apply opt_map_ok. apply opt_find_for_ok. apply Hm. }
+    split.
+    { destruct Hm as (_ & _ & Hpa & _). destruct (parameterized_parent_attr (f_attrs f) ty) as [p|] eqn:E; [|exact Logic.I].
+      unfold parameterized_parent_attr in E. exact (find_for_ok _ _ _ _ _ _ Hpa E). }
+    apply applicable_attr_ok. exact Hm.
+  Qed.
+
+  Lemma ghosts_attr_for_ok (gs : list ghosts_attr) ty (ok : ghosts_attr -> bool) :
+    Forall (fun a => ghosts_ok (ga_core a)) gs -> opt_ok ghosts_ok (option_map ga_core (find_for (fun x => sg_ty (ga_core x)) ok gs ty)).
+  Proof. intro H. apply opt_map_ok. apply opt_find_for_ok. exact H. Qed.
+
+  Lemma view_struct_ok k fl ty s : dt_attrs_ok (s_attrs s) -> Forall field_ok (s_fields s) -> sview_ok (view_struct k fl ty s).
+  Proof.
+    intros (_ & Hg & _ & Hcp) Hf. unfold sview_ok, view_struct. cbn [sv_fields sv_ghosts sv_child_parents]. split.
+    { rewrite Forall_forall in *. intros x Hx. apply in_map_iff in Hx. destruct Hx as (f & <- & Hin). apply view_field_ok, Hf, Hin. }
+    split; [unfold ghosts_attr_for; apply ghosts_attr_for_ok; exact Hg|]. unfold child_parents_attr_for. apply opt_find_for_ok. exact Hcp.
+  Qed.
+
+  Lemma view_variant_ok k fl ty v : variant_ok v -> vview_ok (view_variant k fl ty v).
+  Proof.
+    intros (Hm & Hid & Hf). unfold vview_ok, view_variant. cbn [vv_ident vv_struct vv_attr vv_lit vv_pat].
+    split; [exact Hid|]. split.
+    { unfold sview_ok. cbn [sv_fields sv_ghosts sv_child_parents]. split.
+      - rewrite Forall_forall in *. intros x Hx. apply in_map_iff in Hx. destruct Hx as (f & <- & Hin). apply view_field_ok, Hf, Hin.
+      - split; [|exact Logic.I]. unfold variant_ghosts. apply ghosts_attr_for_ok. apply Hm. }
+    split; [apply applicable_attr_ok; exact Hm|].
+    split; [unfold m_lit_for | unfold m_pat_for]; apply opt_find_for_ok; apply Hm.
+  Qed.
+
+  Lemma view_type_ok k fl ty d : data_ok d -> tview_ok (view_type k fl ty d).
+  Proof.
+    intros (Hid & Hg & Ha & Hd). unfold tview_ok, view_type. cbn [tv_generics tv_data tv_where]. split; [exact Hg|]. split.
+    - destruct d as [s|e]; cbn [dview_ok dt_get_attrs] in *.
+      + apply view_struct_ok; assumption.
+      + split.
+        * rewrite Forall_forall in *. intros x Hx. apply in_map_iff in Hx. destruct Hx as (v & <- & Hin). apply view_variant_ok, Hd, Hin.
+        * unfold ghosts_attr_for. apply ghosts_attr_for_ok. apply Ha.
+    - unfold where_attr_for. apply opt_find_for_ok. apply Ha.
+  Qed.
+
+  Lemma impl_contexts_ok d : data_ok d -> Forall ictx_ok (impl_contexts d).
+  Proof.
+    intros (Hid & _ & (Hat & _) & _). unfold impl_contexts. cbv zeta. apply Forall_flat_map. rewrite Forall_forall. intros kf _.
+    rewrite Forall_forall. intros c Hc. apply in_map_iff in Hc. destruct Hc as (a & <- & Ha).
+    unfold iter_for_kind in Ha. apply filter_In in Ha. destruct Ha as [Ha _]. rewrite Forall_forall in Hat. specialize (Hat a Ha).
+    assert (Hty : TI [TIdent (dt_ident d)]) by (apply TI_ident; [exact Hid | apply TI_nil]).
+    assert (Htp : TI (tp_path (tc_ty (ta_core a)))) by apply Hat.
+    unfold ictx_ok. cbn [c_dst c_src c_core]. split; [destruct (is_from (fst kf)); assumption|]. split; [destruct (is_from (fst kf)); assumption | exact Hat].
+  Qed.
+
+  (* the closed-world statement for the whole expansion *)
+  Theorem data_type_impl_idents d ts : data_ok d -> data_type_impl d = Ok ts -> TI ts.
+  Proof.
+    intros Hd E. unfold data_type_impl in E.
+    assert (H : RR (Forall TI) (mapM (expand_impl d) (impl_contexts d))).
+    { apply RR_mapM. intros c Hc. unfold expand_impl. assert (Hic := impl_contexts_ok d Hd). rewrite Forall_forall in Hic.
+      apply RT_quote_trait; [apply view_type_ok; exact Hd | apply Hic, Hc]. }
+    destruct (mapM (expand_impl d) (impl_contexts d)) as [impls| | |]; cbn [bind] in E; try discriminate. injection E as <-.
+    apply TI_concat. apply H. reflexivity.
+  Qed.
 End ProvC.
+
+(* ---- the instance the property names: neither `std` nor `alloc` ---- *)
+Definition no_std_P (i : string) : Prop := i <> "std" /\ i <> "alloc".
+
+Lemma expand_literals_no_std : forall i, In i expand_literals -> no_std_P i.
+Proof.
+  assert (H : forallb (fun i => negb (String.eqb i "std") && negb (String.eqb i "alloc")) expand_literals = true) by (vm_compute; reflexivity).
+  intros i Hi. rewrite forallb_forall in H. specialize (H i Hi). apply andb_prop in H. destruct H as [H1 H2].
+  split; intro E; subst i; discriminate.
+Qed.
+
+Lemma f_ident_no_std : forall n, no_std_P (f_ident n).
+Proof. intro n. unfold f_ident. cbn [String.append]. split; intro E; discriminate E. Qed.
+
+Definition no_std_prov : Prov := {| P := no_std_P; P_lit := expand_literals_no_std; P_f := f_ident_no_std |}.
+
+Lemma no_std_alloc : forall d ts,
+    @data_ok no_std_prov d -> data_type_impl d = Ok ts -> ~ In "std" (toks_idents ts) /\ ~ In "alloc" (toks_idents ts).
+Proof.
+  intros d ts Hd E. assert (H := @data_type_impl_idents no_std_prov d ts Hd E). unfold TI in H. cbn [P no_std_prov] in H.
+  split; intro Hin; destruct (H _ Hin) as [H1 H2]; [apply H1 | apply H2]; reflexivity.
+Qed.
+
